@@ -14,6 +14,8 @@ func init() {
 				gen.Seq(gen.Lit("1", "1-1", "1-2", "2", "2-1"), gen.Lit("-1", "-2", "-1-1", "-2-1")),
 				gen.Seq(gen.Lit("1.", "1-"), gen.Lit("18446744073709551616", "18446744073709551617", "0000000000000000000000001", "99999999999999999999", "100000000000000000000", "18446744073709551615", "2", "02")),
 			)
+			m := gen.Magnitudes
+			g = gen.Alt(g, gen.Seq(gen.Lit("1.", "1-", "1a", "1:1.", "1~", "1+"), m), gen.Seq(m, gen.Lit(":1", "", "-1", ".1", "a")))
 			return g
 		},
 		Valid: ref.DebianValid,
